@@ -14,6 +14,7 @@ package adapter
 //@ define addressed(rooms []Room, opts *BroadcastOptions) bool = (scard(opts.Rooms) == 0 || inany(rooms, opts.Rooms)) && !inany(rooms, opts.Except)
 
 //@ func shouldIncludePacket
+//@   pure
 //@   requires opts != nil && opts.Rooms != nil && opts.Except != nil
 //@   ensures result == addressed(sessionRooms, opts) [C08.include]
 //@   loop 0 invariant !included && rangeindex >= -1 && inany(sessionRooms, opts.Rooms) == anyfrom(sessionRooms, opts.Rooms, rangeindex + 1) [C08.include.inv.rooms]
